@@ -51,6 +51,11 @@ func (p *Plan) FiredTotal() int {
 	return n
 }
 
+// InterceptOn applies the plan to one request of host h (for callers that decide themselves when to inject).
+func (p *Plan) InterceptOn(h *Host, ev *Event, w http.ResponseWriter, r *http.Request) bool {
+	return p.intercept(h, ev, w, r)
+}
+
 func (p *Plan) intercept(h *Host, ev *Event, w http.ResponseWriter, r *http.Request) bool {
 	p.mu.Lock()
 	var fire *Fault
